@@ -50,7 +50,7 @@ def _in_family(m, fi: FuncInfo) -> bool:
 def run(ctx: Ctx):
   m = model(ctx)
   eng = m.eng
-  for r in (r1, r2, r3, r4, r5, r6, r7, r8):
+  for r in (r1, r2, r3, r4, r5, r6, r7, r8, r9):
     ctx.guard(r, m)
   if eng.unknown_lock_exprs:
     ctx.note('lock-like expressions not resolved: '
@@ -631,12 +631,68 @@ def r8(ctx: Ctx, m):
   ctx.floor(rule, 2)
 
 
+def r9(ctx: Ctx, m):
+  rule = 'R-C04-9'
+  ctx.rule(rule, 're-check after temporary release: when a method hands its'
+           ' condition\'s lock away for a moment (_release_and_notify(L, ...))'
+           ' and later waits on L, every path from the hand-off to the wait'
+           ' re-tests the predicate (the notification may have arrived while'
+           ' the lock was released — a lost wake-up otherwise)')
+  n = 0
+  for fi in m.methods():
+    g = cfgm.cfg_of(fi.node)
+    for lock, tests in ((DEQ, ('get_nowait', 'empty')), (ENQ, ('put_nowait', 'full'))):
+      rel = [nd for nd in g.nodes if any(
+          isinstance(x, ast.Call) and unparse(x.func).split('.')[-1] == '_release_and_notify'
+          and x.args and m.eng.lock_id(x.args[0], fi, {}) == lock
+          for x in cfgm.node_exprs(nd))]
+      waits = [nd for nd in g.nodes if any(
+          isinstance(x, ast.Call) and isinstance(x.func, ast.Attribute) and x.func.attr == 'wait'
+          and m.eng.lock_id(x.func.value, fi, {}) == lock for x in cfgm.node_exprs(nd))]
+      if not rel or not waits:
+        continue
+
+      def retest(nd, tests=tests, fi=fi):
+        if any(isinstance(x, ast.Call) and isinstance(x.func, ast.Attribute)
+               and x.func.attr in tests for x in cfgm.node_exprs(nd)):
+          return True
+        return lock == ENQ and done_test(fi, nd)
+
+      for r_ in rel:
+        n += 1
+        starts = [s for s, lab in r_.succ if lab not in ('exc', 'close')]
+        bad = None
+        for s in starts:
+          if retest(s):
+            continue
+          if s in waits:
+            bad = [f'L{r_.lineno}: {r_.text()}', f'L{s.lineno}: {s.text()}']
+            break
+          w = g.must_pass(s, waits, retest, cfgm.no_close)
+          if w is not None:
+            bad = [f'L{r_.lineno}: {r_.text()}'] + w
+            break
+        if bad:
+          ctx.fail(rule, fi, f'{fi.name}: re-test between {r_.text()[:50]} and wait',
+                   f'{fi.name} releases the condition\'s lock to notify the other'
+                   ' side and can then wait on it without re-testing the'
+                   ' predicate: an element enqueued (or the end of the stream'
+                   ' announced) while the lock was released is missed and the'
+                   ' thread sleeps forever', node=r_.ast, witness=bad)
+        else:
+          ctx.ok(rule, fi, f'{fi.name}: predicate re-tested after the hand-off', r_.ast)
+  ctx.floor(rule, 1, n)
+
+
 # ---------------------------------------------------------------------------
 # Self-validation corpus (edits of the current tree, applied in memory)
 from mlmverif.selfcheck import B, OK  # noqa: E402
 
 _F = 'utils/iter_utils.py'
 VARIANTS = [
+    B('no-recheck-after-handoff', _F,
+      '          if not self._queue.empty():\n            continue\n          if self._dequeue_lock.wait(timeout=self.timeout):',
+      '          if self._dequeue_lock.wait(timeout=self.timeout):', 'R-C04-9'),
     B('revert-get-nowait-lock', _F,
       '    with self._dequeue_lock:\n      self._states_lock.acquire()\n      try:\n        result = self._queue.get_nowait()',
       '    if True:\n      self._states_lock.acquire()\n      try:\n        result = self._queue.get_nowait()',
